@@ -117,6 +117,8 @@ def new_model(fam, prof, seed):
             return m.HourlyModel(settings=m.HourlySolarSettings(seed=seed, train_features=["temperature"]))
         if prof == "solar_dict":
             return m.HourlyModel(settings={"train_features": ["ghi", "temperature"], "seed": seed})
+        if prof == "supp":              # three supplemental time-series columns, named in an order that is not the sorted one
+            return m.HourlyModel(settings={"seed": seed, "supplemental_time_series_columns": ["sup_c", "sup_a", "sup_b"]})
         if prof == "robust":
             return m.HourlyModel(settings=m.HourlyNonSolarSettings(seed=seed, scaling_method="robustscaler"))
     if fam == "caltrack":
@@ -167,14 +169,14 @@ class World:
         return {"json": js, "dq": dq, "warn": wn, "tz": tz}
 
     # ---- actions; each returns the event fields it measured (without proj)
-    def make(self, d, fam, kind, name, obs, entry, ghi=False):
-        frame, kw = lifecat.build(fam, kind, name, obs, ghi=ghi)
+    def make(self, d, fam, kind, name, obs, entry, ghi=False, supp=False):
+        frame, kw = lifecat.build(fam, kind, name, obs, ghi=ghi, supp=supp)
         if entry == "dtcol":            # timestamps handed over as a `datetime` column instead of the index
             frame = frame.rename_axis("datetime").reset_index()
         self.ext[d] = frame
         before = hash_frame(frame)
         cls = getattr(em(), FAMS[fam][1 if kind == "baseline" else 2])
-        ev = {"op": "make", "d": d, "kind": kind, "fam": fam, "sig": "%s%s/%s/%s" % (fam, "+ghi" if ghi else "", kind, name), "wx": "%s%s/%s" % (("h" if fam in ("hourly", "caltrack") else "d"), "g" if ghi else "", name),
+        ev = {"op": "make", "d": d, "kind": kind, "fam": fam, "sig": "%s%s%s/%s/%s" % (fam, "+ghi" if ghi else "", "+supp" if supp else "", kind, name), "wx": "%s%s%s/%s" % (("h" if fam in ("hourly", "caltrack") else "d"), "g" if ghi else "", "s" if supp else "", name),
               "obs": obs, "entry": entry, "ext_before": before, "tz": "", "dq": [], "warn": [], "fullcal": False}
         try:
             if entry == "series" and hasattr(cls, "from_series"):
@@ -254,12 +256,14 @@ class World:
         if agg in ("None", "none"):
             ev["rows_ok"] = bool(res.index.equals(obj.df.index))
             # probe vector: predictions at up to 48 timestamps of the caller's frame, "missing" where none was produced
-            src = self.ext[d].index
+            ext = self.ext[d]
+            src = pd.DatetimeIndex(ext["datetime"]) if "datetime" in ext.columns else ext.index      # timestamps handed over as a column
             k = min(len(src), 96)
             pos = set(int(round(x)) for x in np.linspace(0, len(src) - 1, k))
             # plus rows the observed-variants touch (blanked / zeroed positions and their neighbours)
             allpos = np.arange(len(src))
-            for m in ((allpos * 7919 % 10) == 5, (allpos * 7919 % 10) < 3):
+            tnan = ext["temperature"].isna().to_numpy() if "temperature" in ext.columns else np.zeros(len(src), bool)     # hours whose temperature has to be filled
+            for m in ((allpos * 7919 % 10) == 5, (allpos * 7919 % 10) < 3, tnan):
                 hit = allpos[m][:40]
                 pos.update(int(x) for x in hit)
                 pos.update(int(x) + 1 for x in hit if x + 1 < len(src))
@@ -358,7 +362,7 @@ class World:
     def run(self, a):
         op = a["op"]
         if op == "make":
-            ev = self.make(a["d"], a["fam"], a["kind"], a["name"], a.get("obs", "orig"), a.get("entry", "frame"), a.get("ghi", False))
+            ev = self.make(a["d"], a["fam"], a["kind"], a["name"], a.get("obs", "orig"), a.get("entry", "frame"), a.get("ghi", False), a.get("supp", False))
         elif op == "new":
             ev = self.new(a["s"], a["fam"], a["prof"], a.get("seed", 0))
         elif op == "fit":
